@@ -292,7 +292,32 @@ func runParent(id, tier string, seed uint64, replay string) int {
 		return 2
 	}
 	start := time.Now()
+	// replay: the case list is a pure function of (property, tier, seed), so re-running with the recorded tier and
+	// seed regenerates the recorded case; the run then reports whether the same violation shows again.
+	var replayCase, replayInput string
+	if replay != "" {
+		b, err := os.ReadFile(replay)
+		if err != nil {
+			fmt.Printf("INCONCLUSIVE property=%s reason=cannot read replay file: %v\n", id, err)
+			return 2
+		}
+		var rec struct {
+			Tier      string    `json:"tier"`
+			Seed      uint64    `json:"seed"`
+			Violation violation `json:"violation"`
+		}
+		if err := json.Unmarshal(b, &rec); err != nil {
+			fmt.Printf("INCONCLUSIVE property=%s reason=bad replay file: %v\n", id, err)
+			return 2
+		}
+		tier, seed = rec.Tier, rec.Seed
+		replayCase, replayInput = rec.Violation.Case, short(rec.Violation.Input)
+		fmt.Printf("replaying %s: tier=%s seed=%d case=%s\n  recorded input=%s\n  recorded observation=%s\n", replay, tier, seed, replayCase, replayInput, short(rec.Violation.Observed))
+		replay = ""
+		defer func() { fmt.Println("(replay run: evidence file rewritten for the recorded tier and seed)") }()
+	}
 	workDir := filepath.Join(verifDir, "work", id)
+
 	_ = os.RemoveAll(workDir)
 	if err := os.MkdirAll(workDir, 0o755); err != nil {
 		fmt.Printf("INCONCLUSIVE property=%s reason=%v\n", id, err)
@@ -446,6 +471,15 @@ func runParent(id, tier string, seed uint64, replay string) int {
 				fmt.Printf("KNOWN-FINDING: property=%s %s [%s; %d case(s) this run]\n", id, f.What, f.ID, knownHit[k])
 			}
 		}
+	}
+	if replayCase != "" {
+		found := false
+		for _, v := range merged.Violations {
+			if v.Case == replayCase && short(v.Input) == replayInput {
+				found = true
+			}
+		}
+		fmt.Printf("replay: recorded violation reproduced=%v\n", found)
 	}
 	maxPrint := 10
 	for i, v := range fresh {
